@@ -124,6 +124,22 @@ NEEDS5 = {
  "C17_a": "SincFixedIn skips a channel whose sum of squares is zero: in f32 the squares underflow for |x| below ~2.6e-23, so a quiet signal gives silence while the f64 twin resamples it",
  "C17_b": "FftResampler::resample_unit pre-checks that the block energy is finite: the f32 energy overflows for finite peaks of ~1e18 and more, so the f32 twin emits NaN blocks",
 }
+NEEDS6 = {
+ "C03_a": "SincFixedOut buffer: the (max_rel+1) factor scales only ceil(chunk/ratio), not the sinc_len/2 term: chunk <= ratio, first call after new/reset made after lowering the ratio so that chunk/ratio lies in [floor(max_rel), max_rel], last frame in the top 2/oversampling phases -> interpolator bounds assert",
+ "C03_b": "FastFixedOut::new sizes the buffer for the lowest ratio with the legacy f32 expression while the request is computed in f64: first call after new/reset at exactly the lowest ratio when the two roundings disagree (ratio 1.0, max_rel 1.1, chunk 100) -> slice bounds panic",
+ "C05_a": "FastFixedOut skips the history move when a call needs no new input: chunk/ratio < 1 (chunk 2 at ratio 3.7)",
+ "C05_b": "SincFixedOut moves only the history from sinc_len-1 onward: one frame short for the cubic look-behind point; Cubic, ratio above the oversampling factor, window with a non-zero edge; error 1e-7 of the amplitude",
+ "C06_a": "SincFixedOut Cubic, one channel: sinc points reused while consecutive frames stay in one sub-filter cell, the 'nothing cached' value (0,0) is a valid cell: step in (sinc_len, sinc_len+1.2) and a phase coincidence of width 1/oversampling -> frames of exact 0",
+ "C06_b": "SincFixedOut skips the history move when last_index + 1/ratio >= 2, ignoring a pending ramp's first increment: step > sinc_len+2, ramp to a much higher ratio, tiny chunk",
+ "C10_a": "FftFixedIn::reset zeroes input_buffers only when saved_frames > 0: chunk not a multiple of the FFT length, reset exactly where the saved-frames cycle returns to 0 (1029 calls for 44100->48000 at 1024), then a masked call, then an unmasked one",
+ "C10_b": "SincFixedOut::reset returns early when last_index, chunk size and target ratio are at their initial values: set_resample_ratio(x, false), set_resample_ratio_relative(1.0, true), reset() on an instance that has not processed anything",
+ "C11_a": "SincFixedOut Cubic recomputes the four sinc sums only when the position enters a new sub-sample interval, array shared across channels: >= 2 active channels and a ratio above the oversampling factor",
+ "C11_b": "SincFixedIn Nearest reuses the shared scalar point when a frame selects the same (index, subindex) as the previous one: >= 2 active channels, ratio above the oversampling factor",
+ "C16_a": "FftFixedIn::output_frames_next as whole blocks plus one with > for >=: process() allocates one block too few when saved_frames + chunk % fft_in == fft_in exactly (call 1028 for 44100->48000 at chunk 1000)",
+ "C16_b": "VecResampler forwarder of process_partial_into_buffer maps Some(&[]) to None: the boxed call accepts a zero-channel input list that the direct call rejects",
+ "C18_a": "process_partial_into_buffer pads a flush (None, <= 16384 frames) from a [T::zero(); 16384] array on the stack: an instance that runs on a thread with a small (valid) stack aborts with a stack overflow on its next flush",
+ "C18_b": "SincFixedIn completes a ramp only if !std::thread::panicking(): calls issued from a destructor while the thread unwinds re-ramp from the old ratio",
+}
 ROUND = int(os.environ.get('SEEDED_ROUND', '1'))
 if ROUND == 2:
     NEEDS = NEEDS2
@@ -133,9 +149,11 @@ if ROUND == 4:
     NEEDS = NEEDS4
 if ROUND == 5:
     NEEDS = NEEDS5
-SRC_ROOT = {1: '/tmp/seeded-out', 2: '/tmp/seeded2-out', 3: '/tmp/seeded3-out', 4: '/tmp/seeded4-out', 5: '/tmp/seeded5-out'}[ROUND]
-LOGS = {1: ['/tmp/seeded-results.log'], 2: ['/tmp/seeded2-baseline.log', '/tmp/seeded2-new.log', '/tmp/seeded2-final.log', '/tmp/seeded2-thorough.log'], 3: ['/tmp/seeded3-new.log', '/tmp/seeded3-final.log', '/tmp/seeded3-thorough.log'], 4: ['/tmp/seeded4-new.log', '/tmp/seeded4-thorough.log', '/tmp/seeded4-final.log', '/tmp/seeded4-confirm.log'], 5: ['/tmp/seeded5-new.log', '/tmp/seeded5-final.log', '/tmp/seeded5-thorough.log']}[ROUND]
-PREFIX = {1: '', 2: 'R2_', 3: 'R3_', 4: 'R4_', 5: 'R5_'}[ROUND]
+if ROUND == 6:
+    NEEDS = NEEDS6
+SRC_ROOT = {1: '/tmp/seeded-out', 2: '/tmp/seeded2-out', 3: '/tmp/seeded3-out', 4: '/tmp/seeded4-out', 5: '/tmp/seeded5-out', 6: '/tmp/seeded6-out'}[ROUND]
+LOGS = {1: ['/tmp/seeded-results.log'], 2: ['/tmp/seeded2-baseline.log', '/tmp/seeded2-new.log', '/tmp/seeded2-final.log', '/tmp/seeded2-thorough.log'], 3: ['/tmp/seeded3-new.log', '/tmp/seeded3-final.log', '/tmp/seeded3-thorough.log'], 4: ['/tmp/seeded4-new.log', '/tmp/seeded4-thorough.log', '/tmp/seeded4-final.log', '/tmp/seeded4-confirm.log'], 5: ['/tmp/seeded5-new.log', '/tmp/seeded5-final.log', '/tmp/seeded5-thorough.log'], 6: ['/tmp/seeded6-new.log', '/tmp/seeded6-final.log', '/tmp/seeded6-thorough.log']}[ROUND]
+PREFIX = {1: '', 2: 'R2_', 3: 'R3_', 4: 'R4_', 5: 'R5_', 6: 'R6_'}[ROUND]
 res = {}
 cur = None
 import itertools
@@ -194,8 +212,8 @@ for key in sorted(NEEDS):
     json.dump(meta, open(f"{dst}/meta.json", "w"), indent=1)
     clause = re.search(r'clause=([\w<>=!\-]+)', final.get('detail', ''))
     tally.append((meta['caught_by_quick_check'], meta['caught_by_thorough_check'], bool(meta['caught_by_other_property_check']), any(r['verdict'] == 'NOT-APPLICABLE' for r in runs[-1:])))
-    rows.append((PREFIX + key, p, ' / '.join(f"{r.get('stage','').replace('seeded2-','').replace('seeded3-','').replace('seeded4-','').replace('seeded5-','').replace('seeded-results','run')}{'' if r['property'] == p else '(' + r['property'] + ')'}:{r['verdict']}" for r in runs) or 'NOT-RUN', clause.group(1) if clause else '', len(runs), NEEDS[key]))
-with open({1: '/verif/seeded/RESULTS.md', 2: '/verif/seeded/RESULTS_round2.md', 3: '/verif/seeded/RESULTS_round3.md', 4: '/verif/seeded/RESULTS_round4.md', 5: '/verif/seeded/RESULTS_round5.md'}[ROUND], 'w') as f:
+    rows.append((PREFIX + key, p, ' / '.join(f"{r.get('stage','').replace('seeded2-','').replace('seeded3-','').replace('seeded4-','').replace('seeded5-','').replace('seeded6-','').replace('seeded-results','run')}{'' if r['property'] == p else '(' + r['property'] + ')'}:{r['verdict']}" for r in runs) or 'NOT-RUN', clause.group(1) if clause else '', len(runs), NEEDS[key]))
+with open({1: '/verif/seeded/RESULTS.md', 2: '/verif/seeded/RESULTS_round2.md', 3: '/verif/seeded/RESULTS_round3.md', 4: '/verif/seeded/RESULTS_round4.md', 5: '/verif/seeded/RESULTS_round5.md', 6: '/verif/seeded/RESULTS_round6.md'}[ROUND], 'w') as f:
     f.write("# Independent seeded changes (one sub-agent per property, two variants each)\n\n")
     f.write("Each change compiles, passes the 96 existing tests, and has a demonstration that fails with it and passes without it (confirmed in a scratch worktree). `check runs` counts how often the target check was run against it (a second run follows a strengthening of the check, see DESIGN.md section 13).\n\n")
     f.write("| id | property | quick check verdict | first clause | check runs | needs |\n|---|---|---|---|---|---|\n")
